@@ -161,8 +161,16 @@ claim("C04",
       "counter changes), C04_defender_reason; across labels, for every reachable state and every continuation: C04_stays_ended (ended, "
       "step counter and view frozen until the reset task or departure), C04_limit (Proofs/CoordLimit.v: in every reachable state an "
       "agent with step limit m > 0 has at most m steps and has ended once it has m), C04_origin, C04_one_label (complete case list of what one label can do "
-      "to one agent's record). Tie: trace-following correspondence; monitor: reference of the rule over all responses "
-      "(reference goal check independent of coordinator.goal_check).", C_NOTE, C_TECH, "DESIGN.md section 7, C04")
+      "to one agent's record). The goal check itself (Model/Goal.v = GameCoordinator.goal_check on the views of the world model; "
+      "Props/C04_goal.v): C04_goal_spec (the check holds exactly when every network, host, controlled host the goal lists is in the "
+      "view and every host named under services / data / blocks has an entry containing the listed items), C04_goal_empty, "
+      "C04_goal_mono, C04_step_incl / C04_goal_stable_step (every action but FindServices only adds to every part of the view; a "
+      "goal without services, once reached, stays reached), and in the whole game (coordinator model on the world model): "
+      "C04_game_success (on every counted step the goal check on the new view decides first: reached = Success and ended in that "
+      "step; not reached = never newly Success), C04_game_goal_stable. Tie: trace-following correspondence; goal-check "
+      "correspondence (generated goal/view pairs through the real goal_check and through goal_ok inside Coq, plus the reference "
+      "verdict 'goal contained in view'); monitor: reference of the rule over all responses (reference goal check independent "
+      "of coordinator.goal_check).", C_NOTE, C_TECH, "DESIGN.md section 7, C04")
 claim("C05",
       "Rocq theorems: C05_step, C05_bonus (bonus by role and outcome, marks the agent rewarded), C05_once (a rewarded agent is left "
       "exactly as it is when the reward task fires again), C05_only_all_ended, C05_effect, C05_forbidden, C05_reset; across labels, by induction over all label sequences (invariant "
